@@ -23,6 +23,17 @@ pub uninterp spec fn rpi() -> real;
 pub uninterp spec fn rlog2(x: real) -> real;
 pub uninterp spec fn rceil(x: real) -> real;
 pub uninterp spec fn rpowf(x: real, y: real) -> real;
+// ---- TRUSTED facts about 2^x, log2 and ceil on the reals (used by the ITP unit only) ----
+#[verifier::external_body]
+pub proof fn axiom_pow2_step(x: real) ensures rpowf(2real, x) == 2real * rpowf(2real, x - 1real), rpowf(2real, x) > 0real {}
+#[verifier::external_body]
+pub proof fn axiom_pow2_mono(x: real, y: real) requires x <= y ensures rpowf(2real, x) <= rpowf(2real, y) {}
+#[verifier::external_body]
+pub proof fn axiom_pow2_zero() ensures rpowf(2real, 0real) == 1real {}
+// y <= 2^ceil(log2 y)
+#[verifier::external_body]
+pub proof fn axiom_log2_ceil(y: real) requires y > 0real ensures y <= rpowf(2real, rceil(rlog2(y))) {}
+
 pub uninterp spec fn rexp(x: real) -> real;
 pub uninterp spec fn rln(x: real) -> real;
 pub uninterp spec fn rsin(x: real) -> real;
